@@ -343,6 +343,7 @@ def run_local_obligation(ctx, R, prover, U):
     plan = VStruct("SyncPlan", [VSeq(T, I(0), nt, "usize"), VInt(ex.fresh_int("skipped", ty="usize"), "usize"), VSeq(D, I(0), nd, "usize")])
     calls = []
     scans = [0]
+    EXC_LEN = ex.fresh_int("n_excludes", lo=0, hi=1)
 
     def rec(st, call, **kw):
         e = {"guard": st.guard, "call": call, "seq": len(fsmodels.effects(ex)) + len(calls)}
@@ -360,7 +361,11 @@ def run_local_obligation(ctx, R, prover, U):
         return VEnum("Result", simp(z3.If(ok, I(0), I(1))), {0: [m], 1: [VOpaque("scan error")]})
 
     def s_plan(ex_, st, args, dest_ty, func, where):
-        rec(st, "build_plan", with_delete=args[3].t)
+        exl = fsmodels._deep(ex_, st, args[2])
+        srcm = fsmodels._deep(ex_, st, args[0])
+        same_ex = isinstance(exl, VList) and exl.elem == "EXCLUDES" and exl.len is EXC_LEN
+        same_src = srcm is src_map
+        rec(st, "build_plan", with_delete=args[3].t, excludes_given=z3.BoolVal(bool(same_ex)), source_given=z3.BoolVal(bool(same_src)))
         return plan
 
     def s_unit(ex_, st, args, dest_ty, func, where):
@@ -417,7 +422,15 @@ def run_local_obligation(ctx, R, prover, U):
         return merge(simp(r.discr == 0), r.pay[0][0], empty) if 0 in r.pay else empty
     def into_iter(ex_, st, args, dest_ty, func, where):
         return VStruct("SliceIter", [stdmodels.seq_of(ex_, st, args[0]), VInt(I(0), "usize")])
+
+    def map_retain(ex_, st, args, dest_ty, func, where):
+        """retain with a closure that is not executed: ANY subset of the entries survives (a new map: no longer `the scan as given`)"""
+        m = fsmodels._deep(ex_, st, args[0])
+        items = [VStruct("entry", [VBool(simp(z3.And(e.f[0].t, ex_.fresh_bool("retained")))), e.f[1]]) for e in m.f[0].items]
+        ex_.store_ref(st, args[0], stdmodels.mk_map(items))
+        return UNIT
     ex.models = [(re.compile(r"^<&Vec<PathBuf> as IntoIterator>::into_iter$"), into_iter, "<&Vec<PathBuf>>::into_iter"),
+                 (re.compile(r"^BTreeMap::<PathBuf, FileMeta>::retain::<"), map_retain, "BTreeMap::retain (any subset survives)"),
                  (re.compile(r"^Path::join::<&PathBuf>$"), join_id, "Path::join(root, rel) (recorded)"),
                  (re.compile(r"^std::fs::remove_file::<PathBuf>$"), rm, "fs::remove_file (recorded)"),
                  (re.compile(r"^std::io::_e?print$"), s_unit, "print!/eprintln!"),
@@ -427,7 +440,7 @@ def run_local_obligation(ctx, R, prover, U):
                  (re.compile(r"^<(std::string::)?String as Deref>::deref$|^<Vec<(std::string::)?String> as Deref>::deref$"), identref, "String/Vec deref"),
                  (re.compile(r"^Result::<BTreeMap<PathBuf, FileMeta>, Box<dyn StdError>>::unwrap_or_default$"), unwrap_or_default, "Result::unwrap_or_default (empty map)"),
                  ] + ex.models
-    opts = VStruct("SyncOptions", [VInt(ex.fresh_int("jobs", lo=1, hi=64), "usize"), VBool(verbose), VBool(dry), VBool(delete), VList([], I(0), "String")])
+    opts = VStruct("SyncOptions", [VInt(ex.fresh_int("jobs", lo=1, hi=64), "usize"), VBool(verbose), VBool(dry), VBool(delete), VList([VOpaque("pattern")], EXC_LEN, "EXCLUDES")])
     # field order of SyncOptions from the source
     st = State()
     st.frames[0] = {"co": VEnum("Coroutine", I(0), {-1: [VRef("val", val=pathv(SRC)), VRef("val", val=pathv(DST)), VRef("val", val=opts)]})}
@@ -474,7 +487,8 @@ def run_local_obligation(ctx, R, prover, U):
         "removals-come-after-every-delivery": _all(z3.Implies(z3.And(r_["guard"], d_["guard"]), z3.BoolVal(d_["seq"] < r_["seq"])) for r_ in rms for d_ in dels),
         "a-dry-run-requests-nothing-of-the-destination": z3.Implies(dry, z3.And(n_del == 0, n_rm == 0, _all(z3.Not(c["guard"]) for c in dirs))),
         "an-empty-source-without---delete-requests-nothing": z3.Implies(z3.And(src_empty, z3.Not(delete)), z3.And(n_del == 0, n_rm == 0, _all(z3.Not(c["guard"]) for c in dirs), _all(z3.Not(p["guard"]) for p in plans))),
-        "build_plan-is-asked-with-the---delete-flag-as-given": _all(z3.Implies(p["guard"], p["with_delete"] == delete) for p in plans),
+        "build_plan-is-asked-with-the---delete-flag,-the-exclude-list-and-the-scanned-source-as-given": _all(
+            z3.Implies(p["guard"], z3.And(p["with_delete"] == delete, p["excludes_given"], p["source_given"])) for p in plans),
         "directories-are-created-under-the-destination-only": _all(z3.Implies(c["guard"], c["root"] == DST) for c in dirs),
     }
     prover.prove(ex, goals, "C04/run_local",
